@@ -128,6 +128,29 @@ def corpus():
                          ["call", 4, "join>on_field", [_r(7)], {}, [_s("a")], {}],
                          ["call", 4, "join>cross", [_r(1)], {}, [], {}], ["call", 4, "join>on", [_r(1)], {}, [_crit("b", 1)], {}]],
                "theme": "corpus", "twin": False, "repeats": []})
+    # argument objects shared between statements (round-3 red team): nothing is written at HEAD in these circumstances
+    #  - a sub-query that already carries its automatic name (FROM of another statement) joined into a statement whose own
+    #    FROM sub-query has the same automatic name
+    shared = [["new", "QueryBuilder"], _call(0, "from_", _s("u")), _call(1, "select", _s("x")),          # 2 = sub
+              ["new", "QueryBuilder"], _call(3, "from_", _s("v")), _call(4, "select", _s("y")),          # 5 = active
+              ["new", "QueryBuilder"], _call(6, "from_", _r(2)), _call(7, "select", _s("x")),            # 8 = report (sub = sq0)
+              ["new", "QueryBuilder"], _call(9, "from_", _r(5)), _call(10, "select", _s("y"))]           # 11 = base (active = sq0)
+    cs.append({"steps": shared + [["call", 11, "join>on", [_r(2)], {}, [_crit("y")], {}]], "theme": "corpus", "twin": False, "repeats": []})
+    cs.append({"steps": shared + [_call(11, "join", _r(2)), _call(13, "using", _s("x"))], "theme": "corpus", "twin": False, "repeats": []})
+    cs.append({"steps": shared + [_call(11, "from_", _r(2))], "theme": "corpus", "twin": False, "repeats": []})
+    #  - an un-aliased table that shares only its NAME with the FROM table (other schema / temporal variant)
+    for other in (["new", "Table:a.t1"], None):
+        pre = [["new", "Table:t1"], other or ["new", "Table:t1"]]
+        if other is None:
+            pre += [_call(1, "for_", {"k": "system_time", "a": "2020-01-01", "b": None})]       # 2 = t1 FOR SYSTEM_TIME ...
+        o = 1 if other else 2
+        n = len(pre)
+        steps = pre + [["new", "QueryBuilder"], _call(n, "from_", _r(o)), _call(n + 1, "select", _s("id")),      # statement built earlier
+                       ["new", "QueryBuilder"], _call(n + 3, "from_", _r(0)), _call(n + 4, "select", _s("id"))]
+        for m, a in (("on", [_crit("id", 0)]), ("using", [_s("id")]), ("cross", [])):
+            cs.append({"steps": steps + [["call", n + 5, "join>" + m, [_r(o)], {}, a, {}]], "theme": "corpus", "twin": False, "repeats": []})
+        cs.append({"steps": steps + [_call(n + 5, "join", _r(o)), _call(n + 7, "on_field", _s("id"))],
+                   "theme": "corpus", "twin": False, "repeats": []})
     # each chained form on its own fresh table: the write, the receiver and a bystander query re-render
     for m, a in (("on", [_crit("a", 0)]), ("on_field", [_s("a")]), ("using", [_s("a")]), ("cross", [])):
         cs.append({"steps": [["new", "Table:t1"], ["new", "QueryBuilder"], _call(1, "from_", _r(0)), _call(2, "select", _s("a")),
@@ -358,12 +381,19 @@ def oracle(case, outcome):
                                 % (k, rec["factory"], rec["observed"].get("immutable"))})
         if rec["kind"] != "call":
             continue
-        alias_written = any(ch["what"] == "alias" for ch in rec["changes"])
+        akinds = [ch.get("akind", "alias") for ch in rec["changes"] if ch["what"] == "alias"]
+        alias_written = bool(akinds)
+        # the documented alias writes give an un-named object its automatic name; a write that overwrites a name, or that
+        # renames a table which is not a row source of the statement, is a different defect (and so are its consequences)
+        worst = "alias-overwritten" if "alias-overwritten" in akinds else (
+            "alias-other-table" if "alias-other-table" in akinds else "alias")
         returned_changed = any(ch["role"] == "returned-object" for ch in rec["changes"])
         for ch in rec["changes"]:
             what = ch["what"]
-            if what == "sql" and alias_written:
-                what = "sql-via-alias"                  # consequence of an alias write reported for the same call
+            if what == "alias":
+                what = ch.get("akind", "alias")
+            elif what == "sql" and alias_written:
+                what = "sql-via-" + worst               # consequence of an alias write reported for the same call
             elif what == "sql" and returned_changed and ch["role"] != "returned-object":
                 what = "sql-via-returned-object"        # consequence of mutating the object that was returned before
             out.append({"signature": ["C01", rec["qualname"], ch["role"], what],
